@@ -354,30 +354,106 @@ Lemma tty_chunks_total ctx chunks st ts : InBounds (w_sh st) (length (w_data st)
 Proof. intros Hb Hc. rewrite tty_chunks_concat by assumption. now apply tty_fold_total. Qed.
 
 (* ---------- client programs ---------- *)
+Lemma put_cells_keeps ctx cells : forall st st', put_cells ctx st cells = Ok st' -> Keeps st st'.
+Proof.
+  induction cells as [|c t IH]; intros st st'; cbn [put_cells].
+  - intros [= <-]. apply keeps_refl.
+  - destruct (put_cell ctx st c) as [[st1 f]| | |] eqn:H1; try discriminate.
+    intros H. eapply keeps_trans; [eapply put_cell_keeps; exact H1|eapply IH; exact H].
+Qed.
+
+Lemma put_cells_total ctx cells : forall st, InBounds (w_sh st) (length (w_data st)) -> exists st', put_cells ctx st cells = Ok st'.
+Proof.
+  induction cells as [|c t IH]; intros st Hb; cbn [put_cells]; eauto.
+  destruct (put_cell_total ctx st c Hb) as (st1 & f & H1). rewrite H1.
+  apply IH. eapply keeps_inbounds; [eapply put_cell_keeps; exact H1|exact Hb].
+Qed.
+
+Lemma simple_step_keeps ctx st o st' b : simple_step ctx st o = Ok (st', b) -> Keeps st st'.
+Proof.
+  destruct o; cbn [simple_step].
+  - apply put_cell_keeps.
+  - apply put_cell_keeps.
+  - intros [= <- <-]. apply keeps_same; reflexivity.
+  - intros [= <- <-]. apply keeps_same; reflexivity.
+  - intros [= <- <-]. apply keeps_same; reflexivity.
+  - destruct (put_cells ctx st cells) as [st1| | |] eqn:H1; try discriminate.
+    intros [= <- <-]. eapply put_cells_keeps; exact H1.
+Qed.
+
+Lemma simple_step_total ctx st o : InBounds (w_sh st) (length (w_data st)) ->
+  exists st' b, simple_step ctx st o = Ok (st', b).
+Proof.
+  intros Hb. destruct o; cbn [simple_step]; eauto.
+  - now apply put_cell_total.
+  - now apply put_cell_total.
+  - destruct (put_cells_total ctx cells st Hb) as (st1 & ->). eauto.
+Qed.
+
+Lemma sess_u_keeps ctx items : forall st st' b, sess_u ctx st items = Ok (st', b) -> Keeps st st'.
+Proof.
+  induction items as [|[ch|o] t IH]; intros st st' b; cbn [sess_u].
+  - intros [= <- <-]. apply keeps_refl.
+  - destruct (write_bytes ctx st ch) as [[st1 [|]]| | |] eqn:H1; try discriminate.
+    + intros H. eapply keeps_trans; [eapply write_bytes_keeps; exact H1|eapply IH; exact H].
+    + intros [= <- <-]. eapply write_bytes_keeps; exact H1.
+  - destruct (simple_step ctx st o) as [[st1 f]| | |] eqn:H1; try discriminate.
+    intros H. eapply keeps_trans; [eapply simple_step_keeps; exact H1|eapply IH; exact H].
+Qed.
+
+Lemma sess_u_total ctx items : forall st, InBounds (w_sh st) (length (w_data st)) ->
+  exists st' b, sess_u ctx st items = Ok (st', b).
+Proof.
+  induction items as [|[ch|o] t IH]; intros st Hb; cbn [sess_u]; eauto.
+  - destruct (write_bytes_total ctx ch st Hb) as (st1 & s1 & H1). rewrite H1. destruct s1; eauto.
+    apply IH. eapply keeps_inbounds; [eapply write_bytes_keeps; exact H1|exact Hb].
+  - destruct (simple_step_total ctx st o Hb) as (st1 & f & H1). rewrite H1.
+    apply IH. eapply keeps_inbounds; [eapply simple_step_keeps; exact H1|exact Hb].
+Qed.
+
+Lemma sess_t_keeps ctx items : forall st ts st' ts', sess_t ctx st ts items = Ok (st', ts') -> Keeps st st'.
+Proof.
+  induction items as [|[ch|o] t IH]; intros st ts st' ts'; cbn [sess_t].
+  - intros [= <- <-]. apply keeps_refl.
+  - destruct (tty_write ctx st ts ch) as [[st1 ts1]| | |] eqn:H1; try discriminate.
+    intros H. eapply keeps_trans; [eapply tty_write_keeps; exact H1|eapply IH; exact H].
+  - destruct (simple_step ctx st o) as [[st1 f]| | |] eqn:H1; try discriminate.
+    intros H. eapply keeps_trans; [eapply simple_step_keeps; exact H1|eapply IH; exact H].
+Qed.
+
+Lemma sess_t_total ctx items : forall st ts, InBounds (w_sh st) (length (w_data st)) -> TokOk ts ->
+  exists st' ts', sess_t ctx st ts items = Ok (st', ts') /\ TokOk ts'.
+Proof.
+  induction items as [|[ch|o] t IH]; intros st ts Hb Hc; cbn [sess_t]; eauto.
+  - destruct (tty_write_total ctx ch st ts Hb Hc) as (st1 & ts1 & H1 & Hc1). rewrite H1.
+    apply IH; [|exact Hc1]. eapply keeps_inbounds; [eapply tty_write_keeps; exact H1|exact Hb].
+  - destruct (simple_step_total ctx st o Hb) as (st1 & f & H1). rewrite H1.
+    apply IH; [|exact Hc]. eapply keeps_inbounds; [eapply simple_step_keeps; exact H1|exact Hb].
+Qed.
+
 Lemma wop_step_keeps ctx st o st' b : wop_step ctx st o = Ok (st', b) -> Keeps st st'.
 Proof.
-  destruct o; cbn [wop_step].
-  - apply put_cell_keeps.
-  - apply put_cell_keeps.
-  - intros [= <- <-]. apply keeps_same; reflexivity.
-  - intros [= <- <-]. apply keeps_same; reflexivity.
-  - intros [= <- <-]. apply keeps_same; reflexivity.
+  destruct o; cbn [wop_step]; try apply simple_step_keeps.
   - apply write_chunks_keeps.
   - destruct (write_chunks ctx (set_dec st u0) chunks) as [[st1 f]| | |] eqn:H1; try discriminate.
     intros [= <- <-]. apply write_chunks_keeps in H1. exact H1.
   - destruct (tty_chunks ctx st (t0 (cmd_dfa ctx)) chunks) as [[st1 ts1]| | |] eqn:H1; try discriminate.
     intros [= <- <-]. eapply tty_chunks_keeps; exact H1.
+  - destruct (sess_u ctx (set_dec st u0) items) as [[st1 f]| | |] eqn:H1; try discriminate.
+    intros [= <- <-]. apply sess_u_keeps in H1. exact H1.
+  - destruct (sess_t ctx st (t0 (cmd_dfa ctx)) items) as [[st1 ts1]| | |] eqn:H1; try discriminate.
+    intros [= <- <-]. eapply sess_t_keeps; exact H1.
 Qed.
 
 Lemma wop_step_total ctx st o : InBounds (w_sh st) (length (w_data st)) ->
   exists st' b, wop_step ctx st o = Ok (st', b).
 Proof.
-  intros Hb. destruct o; cbn [wop_step]; eauto.
-  - now apply put_cell_total.
-  - now apply put_cell_total.
+  intros Hb. destruct o; cbn [wop_step]; try (now apply simple_step_total).
   - now apply write_chunks_total.
   - destruct (write_chunks_total ctx chunks (set_dec st u0) Hb) as (st1 & f & ->). eauto.
   - destruct (tty_chunks_total ctx chunks st (t0 (cmd_dfa ctx)) Hb (t0_tokok _)) as (st1 & ts1 & -> & _). eauto.
+  - destruct (sess_u_total ctx items (set_dec st u0) Hb) as (st1 & f & ->). eauto.
+  - destruct (sess_t_total ctx items st (t0 (cmd_dfa ctx)) Hb (t0_tokok _)) as (st1 & ts1 & -> & _). eauto.
 Qed.
 
 Lemma wops_run_keeps ctx ops : forall st st' bs, wops_run ctx st ops = Ok (st', bs) -> Keeps st st'.
